@@ -10,6 +10,7 @@ package dedup
 import (
 	"encoding/json"
 	"fmt"
+	"math"
 	"math/rand"
 	"os"
 	"strconv"
@@ -144,8 +145,8 @@ func TestGovcReplay(t *testing.T) {
 	}
 	_ = json.Unmarshal(data, &r)
 	var msgs []string
-	seeks := []int64{-1, 0, 1, 4999, 5000, 10000, 10001, 17500, 30000, 100000}
-	if v, err := strconv.ParseInt(strings.TrimSpace(r.Model["t"]), 10, 64); err == nil && v > -1<<40 && v < 1<<40 {
+	seeks := []int64{math.MinInt64, math.MinInt64 + 1, -1, 0, 1, 4999, 5000, 10000, 10001, 17500, 30000, 100000, math.MaxInt64}
+	if v, err := strconv.ParseInt(strings.TrimSpace(r.Model["t"]), 10, 64); err == nil {
 		seeks = append([]int64{v}, seeks...)
 	}
 	fixed := [][][]int64{
